@@ -1,1 +1,208 @@
-(* Front/Lex.v -- stub, to be filled *)
+(* Front/Lex.v -- layer F0: executable model of asn1rs-model/src/parse/tokenizer.rs
+   (`Tokenizer::parse`), `Token::append` (parse/token.rs) and `Location` (parse/location.rs).
+
+   Characters are `N` code points.  The only `char` predicate the tokenizer uses is
+   `char::is_control` (Unicode general category Cc = U+0000..U+001F, U+007F..U+009F), so the
+   model is exact for every Unicode scalar value, not only for ASCII.  Columns count `char`s
+   (`line.chars().enumerate()`), not bytes.
+
+   Rust shape                                   model
+   ------------------------------------------   -------------------------------------------
+   asn.lines()  (std, rustc >= 1.70: split at   lines_of
+     '\n', strip the '\n' and then one '\r'
+     only if the '\n' was there)
+   Token::{Text,Separator}(Location, ..)        token
+   Token::append                                token_append
+   body of `while let Some((column_0, char))`   step   (one iteration: char + peeked char)
+   the while loop over one line                 line_loop
+   `for (line_0, line) in asn.lines()...`       lines_loop
+   Tokenizer::parse                             tokenize
+   `tokens.push(t)` (the Vec is only pushed to) emitted token lists, concatenated in order
+   `nest_lvl` (i32 by inference)                Z with the i32 overflow of `+= 1` explicit
+   line_0 + 1, column_0 + 1 (usize)             N, no overflow (64-bit usize, text < 2^64 chars)
+   eprintln!("Ignoring unexpected character")   no effect on the result
+   explicit panic!("... unclosed comment ...")  Panic P_OTHER                                  *)
+From A1 Require Export Base.Res.
+Local Open Scope N_scope.
+
+(* ---------- tokens ---------- *)
+
+Inductive token : Type :=
+| Text (line column : N) (s : list N)
+| Separator (line column : N) (c : N).
+
+(* Token::append *)
+Definition token_append (a b : token) : token * option token :=
+  match a, b with
+  | Text l c text, Text _ _ other => (Text l c (text ++ other), None)
+  | a, b => (a, Some b)
+  end.
+
+(* ---------- chars ---------- *)
+
+Definition is_control (c : N) : bool := (c <? 32) || ((127 <=? c) && (c <? 160)).
+
+(* the thirteen separator characters  : ; = ( ) { } . , [ ]  apostrophe(39)  quotation-mark(34) *)
+Definition is_sep_char (c : N) : bool :=
+  (c =? 58) || (c =? 59) || (c =? 61) || (c =? 40) || (c =? 41) || (c =? 123) || (c =? 125)
+  || (c =? 46) || (c =? 44) || (c =? 91) || (c =? 93) || (c =? 39) || (c =? 34).
+
+Definition opt_eqb (o : option N) (c : N) : bool :=
+  match o with Some x => x =? c | None => false end.
+
+Definition is_none {A} (o : option A) : bool := match o with None => true | Some _ => false end.
+
+(* ---------- str::lines ---------- *)
+
+Definition as_lines (r : list N * list (list N)) : list (list N) := fst r :: snd r.
+
+(* first line of a non-empty text (terminator "\n" or "\r\n" removed) and the lines after it *)
+Fixpoint split_lines (s : list N) : list N * list (list N) :=
+  match s with
+  | [] => ([], [])
+  | c :: t =>
+      if c =? 10 then
+        ([], match t with [] => [] | _ :: _ => as_lines (split_lines t) end)
+      else
+        match t with
+        | [] => ([c], [])
+        | c2 :: t2 =>
+            if (c =? 13) && (c2 =? 10) then
+              ([], match t2 with [] => [] | _ :: _ => as_lines (split_lines t2) end)
+            else let r := split_lines t in (c :: fst r, snd r)
+        end
+  end.
+
+Definition lines_of (s : list N) : list (list N) :=
+  match s with [] => [] | _ :: _ => as_lines (split_lines s) end.
+
+(* ---------- one iteration of the character loop ---------- *)
+
+Definition I32_MAX : Z := 2147483647.
+Definition I32_MIN : Z := (-2147483648)%Z.
+
+(* nest_lvl += 1 *)
+Definition nest_incr (m : mode) (n : Z) : res Z :=
+  if (n =? I32_MAX)%Z then (if overflow_checks m then Panic P_ARITH else Ok I32_MIN)
+  else Ok (n + 1)%Z.
+
+Inductive action : Type :=
+| Continue (skip_peeked : bool) (previous : option token) (nest_lvl : Z) (pushed : list token)
+| Break
+| Fail (p : N).
+
+Definition push_opt (p : option token) : list token :=
+  match p with Some t => [t] | None => [] end.
+
+(* `if let Some(token) = token.take() { previous = match previous {...} }` *)
+Definition merge (previous : option token) (tok : token) : option token * list token :=
+  match previous with
+  | None => (Some tok, [])
+  | Some current =>
+      match token_append current tok with
+      | (t, None) => (Some t, [])
+      | (t, Some next) => (Some next, [t])
+      end
+  end.
+
+Definition step (m : mode) (last_line : bool) (line_0 column_0 : N)
+           (previous : option token) (nest_lvl : Z) (c : N) (peek : option N) : action :=
+  if (0 <? nest_lvl)%Z then
+    if c =? 42 then                                   (* '*' *)
+      if opt_eqb peek 47 then Continue true previous (nest_lvl - 1)%Z []
+      else Continue false previous nest_lvl []
+    else if c =? 47 then                              (* '/' *)
+      if opt_eqb peek 42 then
+        match nest_incr m nest_lvl with
+        | Ok n => Continue true previous n []
+        | Err _ => Fail P_OTHER
+        | Panic p => Fail p
+        end
+      else Continue false previous nest_lvl []
+    else
+      if is_none peek && last_line then Fail P_OTHER  (* panic!("The file has unclosed comment blocks...") *)
+      else Continue false previous nest_lvl []
+  else if (nest_lvl =? 0)%Z && (c =? 45) && opt_eqb peek 45 then Break
+  else if (c =? 47) && opt_eqb peek 42 then
+    (* nest_lvl += 1; then (repair 58b7ab0) `if let Some(token) = previous.take() { tokens.push(token) }`:
+       a comment separates lexical items *)
+    match nest_incr m nest_lvl with
+    | Ok n => Continue true None n (push_opt previous)
+    | Err _ => Fail P_OTHER
+    | Panic p => Fail p
+    end
+  else if is_sep_char c then
+    let (p, out) := merge previous (Separator (line_0 + 1) (column_0 + 1) c) in
+    Continue false p nest_lvl out
+  else if negb (is_control c) && negb (c =? 32) then
+    let (p, out) := merge previous (Text (line_0 + 1) (column_0 + 1) [c]) in
+    Continue false p nest_lvl out
+  else if (c =? 32) || (c =? 13) || (c =? 10) || (c =? 9) then
+    Continue false None nest_lvl (push_opt previous)
+  else Continue false previous nest_lvl [].          (* eprintln!("Ignoring unexpected character") *)
+
+(* result of a loop: (previous, nest_lvl, tokens pushed) *)
+Definition lstate : Type := option token * Z * list token.
+
+Definition emit (out : list token) (r : res lstate) : res lstate :=
+  match r with
+  | Ok (p, n, o) => Ok (p, n, out ++ o)
+  | Err e => Err e
+  | Panic p => Panic p
+  end.
+
+(* `while let Some((column_0, char)) = content_iterator.next()` over one line *)
+Fixpoint line_loop (m : mode) (last_line : bool) (line_0 column_0 : N)
+         (previous : option token) (nest_lvl : Z) (cs : list N) {struct cs} : res lstate :=
+  match cs with
+  | [] => Ok (previous, nest_lvl, [])
+  | c :: rest =>
+      match step m last_line line_0 column_0 previous nest_lvl c (hd_error rest) with
+      | Fail p => Panic p
+      | Break => Ok (previous, nest_lvl, [])
+      | Continue sk p n out =>
+          emit out
+            (if sk then
+               match rest with
+               | _ :: rest' => line_loop m last_line line_0 (column_0 + 2) p n rest'
+               | [] => Ok (p, n, [])      (* not reachable: sk only when a char was peeked *)
+               end
+             else line_loop m last_line line_0 (column_0 + 1) p n rest)
+      end
+  end.
+
+(* `for (line_0, line) in asn.lines().enumerate()`; count = asn.lines().count() *)
+Fixpoint lines_loop (m : mode) (count : N) (line_0 : N) (previous : option token) (nest_lvl : Z)
+         (ls : list (list N)) {struct ls} : res lstate :=
+  match ls with
+  | [] => Ok (previous, nest_lvl, [])
+  | l :: ls' =>
+      match line_loop m (line_0 =? count - 1) line_0 0 previous nest_lvl l with
+      | Ok (p, n, out) =>
+          (* if let Some(token) = previous.take() { tokens.push(token); } *)
+          emit (out ++ push_opt p) (lines_loop m count (line_0 + 1) None n ls')
+      | Err e => Err e
+      | Panic p => Panic p
+      end
+  end.
+
+(* Tokenizer::parse *)
+Definition tokenize (m : mode) (asn : list N) : res (list token) :=
+  let ls := lines_of asn in
+  match lines_loop m (N.of_nat (length ls)) 0 None 0%Z ls with
+  | Ok (p, _, out) => Ok (out ++ push_opt p)     (* if let Some(token) = previous { push } *)
+  | Err e => Err e
+  | Panic p => Panic p
+  end.
+
+(* ---------- accessors ---------- *)
+
+Definition tok_line (t : token) : N := match t with Text l _ _ => l | Separator l _ _ => l end.
+Definition tok_column (t : token) : N := match t with Text _ c _ => c | Separator _ c _ => c end.
+
+(* sanity: str::lines on the documented examples *)
+Example lines_of_ex1 :
+  lines_of [97; 13; 10; 98; 10; 10; 99; 13] = [[97]; [98]; []; [99; 13]].
+Proof. reflexivity. Qed.
+Example lines_of_ex2 : lines_of [97; 10] = [[97]] /\ lines_of [10] = [[]] /\ lines_of [13; 13; 10; 13] = [[13]; [13]].
+Proof. repeat split. Qed.
